@@ -1671,3 +1671,141 @@ def g_c15(rng, tier, budget):
 
 
 GENERATORS.update({"C09": g_c09, "C15": g_c15})
+
+
+# ---------------------------------------------------------------------------------------
+# API surface: entry points the other families reach only indirectly
+
+SURFACE_BACKENDS = [("host", "avx2"), ("host", "sse2"), ("host", "swar"), ("neon", "neon"), ("simd128", "simd128")]
+
+
+def gen_surface_byte(rng, tier, dirs, with_count=False):
+    """slice forms `One/Two/Three::{find,rfind,count}(&hay[s..e])` of every searcher module
+    (+ `new_unchecked`/`is_available` cross-check inside the executor), on sub-windows"""
+    n = 0
+    for needles, base, hay in byte_cases(rng, tier, 140 if tier == "quick" else 300):
+        n += 1
+        if tier == "quick" and n % 3:
+            continue
+        hh, length = hay_hex(hay)
+        wins = [(0, length)]
+        if length >= 2 and not isinstance(hay, tuple):
+            a_, b_ = sorted((rng.randrange(length + 1), rng.randrange(length + 1)))
+            wins += [(1, length), (0, length - 1), (a_, b_)]
+        for (so, eo) in wins:
+            for (variant, be) in SURFACE_BACKENDS:
+                for d in dirs:
+                    yield ("memchrs %s %s %s %d %d %d %s" % (be, hx(needles), d, base, so, eo, hh),
+                           dict(cfg=variant, family="memchrs-" + be, untraced_widths=UNTRACED.get(be)))
+                if with_count and len(needles) == 1:
+                    yield ("counts %s %s %d %d %d %s" % (be, hx(needles), base, so, eo, hh),
+                           dict(cfg=variant, family="counts-" + be, untraced_widths=UNTRACED.get(be)))
+
+
+def gen_surface_iter(rng, tier):
+    """`Memchr{,2,3}::new` and the reversed adapters `memrchr{,2,3}_iter`, on every configuration"""
+    cfgs = BYTE_CFGS_QUICK if tier == "quick" else BYTE_CFGS_THOROUGH
+    for _ in range(150 if tier == "quick" else 1500):
+        length = rng.choice([0, 1, 5, 17, 33, 64, 65, 100, 129, 257, 300])
+        dens = rng.choice([0.02, 0.2, 0.8])
+        k = rng.choice([1, 2, 3])
+        needles = rng.choice(NEEDLE_SETS[k])
+        hay = [rng.choice(needles) if rng.random() < dens else 0x2E for _ in range(length)]
+        ops = "".join(rng.choice("nnbbsc") for _ in range(rng.randrange(1, 30)))
+        for (variant, picked, direct) in cfgs:
+            for opn in ("iterdn", "iterdr"):
+                yield ("%s %s %s %d %s %s" % (opn, picked, hx(needles), rng.randrange(64), hx(hay), ops),
+                       dict(cfg=variant, family=opn, untraced_widths=UNTRACED.get(picked)))
+    # one end consumed, then the other (see gen_iter_consumed), through the reversed adapter
+    for length in range(1, 200, 1 if tier != "quick" else 3):
+        for a in (0, 1, 31, 32, 33):
+            for ops, pos in (("nb", length - 1), ("bn", 0)):
+                hh = "r%dx2e+61+r%dx2e" % (pos, length - pos - 1)
+                for (variant, picked, direct) in cfgs:
+                    yield ("iterdr %s 61 %d %s %s" % (picked, a, hh, ops),
+                           dict(cfg=variant, family="iterdr-consumed", untraced_widths=UNTRACED.get(picked)))
+
+
+def gen_surface_iseqraw(rng, tier):
+    for length in list(range(0, 41)) + [63, 64, 65, 127, 128, 129, 255, 256, 257, 1000, 4096, 4097]:
+        x = [rng.randrange(256) for _ in range(length)]
+        ps = [None] + (sorted(set([0, length // 2, length - 1] + [rng.randrange(length) for _ in range(3)])) if length else [])
+        for p in ps:
+            y = list(x)
+            if p is not None:
+                y[p] ^= 1 << rng.randrange(8)
+            for (bx, by) in ((0, 0), (3, (4096 - length) % 4096), ((4096 - length) % 4096, 5)):
+                yield ("iseqraw %d %s %d %s" % (bx, hx(x), by, hx(y)), dict(family="iseqraw"))
+
+
+def gen_surface_rkraw(rng, tier):
+    """raw-pointer Rabin-Karp, needle in its own buffer and needle pointing INTO the haystack"""
+    units = [[0x61], [0x61, 0x62], [0x61, 0x62, 0x63], [0x61, 0x61, 0x62], list(b"abcab"), list(b"xyzzy-")]
+    for unit in units:
+        for reps in (1, 2, 3, 5, 9, 20):
+            hay = unit * reps
+            for nl in sorted(set([0, 1, 2, 3, len(unit), len(unit) + 1, 2 * len(unit), 9, 17, 33])):
+                if nl > len(hay):
+                    continue
+                for off in sorted(set([0, 1, len(unit), (len(hay) - nl) // 2, len(hay) - nl])):
+                    if off + nl > len(hay):
+                        continue
+                    needle = hay[off:off + nl]
+                    for d in ("fwd", "rev"):
+                        yield ("rkraw %s %d %s @%d %s" % (d, rng.randrange(64), hx(hay), off, hx(needle)), dict(family="rkraw-alias"))
+                        yield ("rkraw %s %d %s %d %s" % (d, end_at_guard(len(hay)), hx(hay), end_at_guard(nl), hx(needle)),
+                               dict(family="rkraw"))
+    pairs = list(mm_pairs(rng, "quick", 400))
+    for needle, hay in rng.sample(pairs, min(len(pairs), 1500 if tier == "quick" else 15000)):
+        for d in ("fwd", "rev"):
+            yield ("rkraw %s %d %s %d %s" % (d, rng.randrange(64), hx(hay), 7, hx(needle)), dict(family="rkraw"))
+    for (needle, window) in rk_colliding(rng):
+        for d in ("fwd", "rev"):
+            yield ("rkraw %s 0 %s 0 %s" % (d, hx(window + needle + window), hx(needle)), dict(family="rkraw-collide"))
+
+
+def gen_surface_findfree(rng, tier):
+    import itertools as _it3
+    pairs = list(mm_pairs(rng, "quick", 600))
+    pairs = rng.sample(pairs, min(len(pairs), 1500 if tier == "quick" else 15000))
+    for needle, hay in pairs:
+        for (variant, cfg) in MM_CFGS_QUICK[:3] if tier == "quick" else MM_CFGS_QUICK:
+            for d in ("fwd", "rev"):
+                yield ("findfree %s %s %s %d %s" % (cfg, d, hx(needle), rng.randrange(64), hx(hay)),
+                       dict(cfg=variant, family="findfree-" + d))
+    for hay in ([], [0x61], [0x61] * 5, list(b"abcabc")):
+        for (variant, cfg) in MM_CFGS_QUICK[:3]:
+            for d in ("fwd", "rev"):
+                yield ("findfree %s %s - 0 %s" % (cfg, d, hx(hay)), dict(cfg=variant, family="findfree-empty"))
+
+
+def _wrap(prop, extra):
+    base = GENERATORS[prop]
+
+    def g(rng, tier, budget):
+        import itertools as _it4
+        # (the deep streams are consumed through a sampler; a budgeted call must stay bounded)
+        yield from (_it4.islice(extra(rng, tier), max(1000, budget // 4)) if budget else extra(rng, tier))
+        yield from base(rng, tier, budget)
+    GENERATORS[prop] = g
+
+
+_wrap("C01", lambda rng, tier: gen_surface_byte(rng, tier, ["fwd"]))
+_wrap("C02", lambda rng, tier: gen_surface_byte(rng, tier, ["rev"]))
+_wrap("C07", lambda rng, tier: gen_surface_byte(rng, tier, [], with_count=True))
+_wrap("C06", gen_surface_iter)
+_wrap("C18", gen_surface_iseqraw)
+_wrap("C12", gen_surface_rkraw)
+_wrap("C08", gen_surface_findfree)
+_wrap("C09", lambda rng, tier: gen_surface_byte(rng, tier, ["fwd", "rev"], with_count=True))
+
+
+def _c05_surface(rng, tier):
+    for op, meta in gen_surface_byte(rng, tier, ["fwd", "rev"], with_count=True):
+        if rng.random() < 0.35:
+            yield op, meta
+    yield from gen_surface_iseqraw(rng, tier)
+    yield from gen_surface_rkraw(rng, tier)
+
+
+_wrap("C05", _c05_surface)
